@@ -132,7 +132,10 @@ def forbidden_scan():
             continue
         for f in fs:
             if f.endswith(".v"):
-                txt = open(os.path.join(d, f)).read()
+                try:
+                    txt = open(os.path.join(d, f)).read()
+                except OSError:
+                    continue       # a scratch file of a concurrent run (coq/gen/<pid>) that has just been removed
                 # strip comments (no nesting subtleties needed: development avoids nested comments with quotes)
                 txt2 = re.sub(r"\(\*.*?\*\)", "", txt, flags=re.S)
                 for m in pat.finditer(txt2):
